@@ -9,7 +9,7 @@ for p in sorted(glob.glob('/verif/seeded/*/meta.json')):
     inconcl = [d for d in det if d.get('exit') == 2]
     if caught:
         verdict = 'caught'
-        by = '; '.join('%s (%s)' % (d['check'], ', '.join(d['violation_harnesses'][:2]) or ', '.join(d['failing_harnesses'][:2])) for d in caught)
+        by = '; '.join('%s (%s)' % (d['check'], ', '.join(h.split('-')[1] for h in d['violation_harnesses'][:2]) or ', '.join(d['failing_harnesses'][:2]) or 'harness crate no longer compiles: rustc error in the module whose compilation is claimed') for d in caught)
     elif inconcl:
         verdict = 'inconclusive'
         by = '; '.join('%s (failing: %s)' % (d['check'], ', '.join(d['failing_harnesses'][:2])) for d in inconcl)
